@@ -10,6 +10,8 @@ package c05
 //	5 N = CreateAddress(signer, nonce)  6 contract Y (frame-revert shape)  7 B2  8 C3  9 driver contract D
 //	10, 11 second and third signer  12 factory F  13 XF = address of F's next CREATE / CREATE2
 //	14 wasm contract W (a 32-byte bank address)  15 PH = the 20-byte account made of the last 20 bytes of W
+//	16 the EVM module account (SetAccBalance mints to it / burns from it)  17 script contract Z
+//	18 the x/distribution module account (the bank refuses to credit it, like 1 and 16)
 //
 // plus tx code, VmError flag and MsgEthereumTxResponse.GasUsed (EventEthereumTx.gas_used).
 //
@@ -18,6 +20,10 @@ package c05
 // precompile bankMsgSend(to, unibi, w), 8 the same then revert, 9 forward w wei to `to` by CALL and then
 // bankMsgSend(to, unibi, pamt); `to` = B, the signer, X itself or R.  Contract Y sends 5 unibi to B2, then
 // calls itself; the inner frame calls the precompile (whoAmI), sends 1 unibi to C3 and reverts.
+// Contract Z interprets its calldata as a script: CALLs with value (plain transfers, also to module accounts the bank
+// blocks), calls of the FunToken precompile (whoAmI / bankMsgSend) and calls of itself with a sub-script (a call frame
+// that ends in STOP or REVERT); the results of all CALLs are ignored.  A transfer to a blocked module account followed
+// by a precompile call in the same live frame makes the pre-precompile flush (CommitCacheCtx) fail half-way.
 
 import (
 	"os"
@@ -35,6 +41,8 @@ import (
 
 	sdkmath "cosmossdk.io/math"
 	abci "github.com/cometbft/cometbft/abci/types"
+	authtypes "github.com/cosmos/cosmos-sdk/x/auth/types"
+	distrtypes "github.com/cosmos/cosmos-sdk/x/distribution/types"
 	codectypes "github.com/cosmos/cosmos-sdk/codec/types"
 	sdk "github.com/cosmos/cosmos-sdk/types"
 	authtx "github.com/cosmos/cosmos-sdk/x/auth/tx"
@@ -74,6 +82,18 @@ type c05Tx struct {
 	WAmt    string    `json:"wamt"`   // target w: unibi attached as funds to the wasm precompile `execute` of contract W
 	WBad    bool      `json:"wbad"`   // target w: execute message the wasm contract does not know (fails)
 	Steps   []c05Step `json:"steps"` // target d: calls the driver contract D makes to X inside this one tx
+	ZSteps  []c05ZStep `json:"zsteps"` // target z: the script contract Z runs
+	ZRev    bool       `json:"zrev"`   // target z: the top-level frame ends in REVERT
+}
+
+// one step of a script of contract Z
+type c05ZStep struct {
+	Op   string     `json:"op"`   // t: CALL `to` with `w` wei | p: call the FunToken precompile | f: call itself with `body`
+	To   string     `json:"to"`   // t, p: B | R | S (signer) | X | DIST (x/distribution) | FC (fee collector)
+	W    string     `json:"w"`    // t: wei ; p: unibi of bankMsgSend
+	Q    bool       `json:"q"`    // p: whoAmI (a query) instead of bankMsgSend
+	Body []c05ZStep `json:"body"` // f: the sub-script
+	Rev  bool       `json:"rev"`  // f: the frame ends in REVERT
 }
 
 // one call D -> X: X runs `mode` (0 keep, 1 revert, 3 forward w wei to the beneficiary, 4 selfdestruct to the
@@ -100,6 +120,7 @@ type c05Der struct {
 	BaseFee   string `json:"basefee"`
 	BlockGas  uint64 `json:"blockgas"`
 	Signer    int      `json:"signer"` // account id of the signer (bundle messages)
+	Blocked   []int    `json:"blocked"` // ids of the scenario accounts for which BankKeeper.BlockedAddr holds
 	Msgs      []c05Der `json:"msgs"`   // bundle: one entry per message
 }
 
@@ -122,6 +143,7 @@ var c05XInit = mustHex("6100f5600e6000396100f56000f36000358060011461004c57806002
 var c05YRuntime = mustHex("33301461004257600060006000600065048c273950007300000000000000000000000000000000000000b25af150366000600037600060003660006000305af150005b3660006000376000600036600060006108005af150600060006000600064e8d4a510007300000000000000000000000000000000000000c35af15060006000fd")
 var c05DInit = mustHex("610045600e6000396100456000f360005b80602035146100435780608002604001803560005280604001356020528060600135604052600060006060600084602001356000355af15050600101610002565b00")
 var c05FInit = mustHex("61003a600e60003961003a6000f360006000600060006020356000355af15060a03560c060003760603561002b5760a0356000604035f050005b60803560a0356000604035f55000")
+var c05ZInit = mustHex("604f80600b6000396000f360005b80358015610047578060031461004957508060800135808260c00160003760006000826000856040013586602001358760600135f150508060a001350160c001610002565b005b60006000fd")
 var c05InitOOG = mustHex("5b600056")
 var c05InitInvalid = mustHex("fe")
 var c05CreateOK = mustHex("600160005360016000f3")     // returns 1 byte of runtime code
@@ -152,7 +174,7 @@ type c05World struct {
 	c        *Chain
 	deployer evmtest.EthPrivKeyAcc
 	dnonce   uint64
-	X, Y, D, F gethcommon.Address
+	X, Y, D, F, Z gethcommon.Address
 	W        sdk.AccAddress // wasm counter contract (32-byte address)
 	salt     int64
 	xAlive   bool
@@ -191,6 +213,7 @@ func newC05World(t *testing.T) *c05World {
 	w.Y = w.deploy(t, yinit, 100_000)
 	w.D = w.deploy(t, c05DInit, 1_000_000)
 	w.F = w.deploy(t, c05FInit, 1_000_000)
+	w.Z = w.deploy(t, c05ZInit, 1_000_000)
 	repo := os.Getenv("VERIF_REPO")
 	if repo == "" {
 		repo = "/repo"
@@ -265,6 +288,8 @@ func (w *c05World) runCase(t *testing.T, cs c05Case) ([]c05Der, []c05Obs) {
 	}
 	c.EndBlock()
 	fc := gethcommon.BytesToAddress(c.App.AccountKeeper.GetModuleAddress("fee_collector"))
+	evmMod := gethcommon.BytesToAddress(authtypes.NewModuleAddress(evm.ModuleName))
+	dist := gethcommon.BytesToAddress(authtypes.NewModuleAddress(distrtypes.ModuleName))
 	var ders []c05Der
 	var obs []c05Obs
 	signerAccs := []evmtest.EthPrivKeyAcc{S, S1, S2}
@@ -313,6 +338,7 @@ func (w *c05World) runCase(t *testing.T, cs c05Case) ([]c05Der, []c05Obs) {
 			var to *gethcommon.Address
 			var data []byte
 			toID := 2
+			zgas := uint64(0)
 			expect := "ok"
 			hasCode := false
 			switch tx.Target {
@@ -426,6 +452,79 @@ func (w *c05World) runCase(t *testing.T, cs c05Case) ([]c05Der, []c05Obs) {
 					t.Fatal(err)
 				}
 				data = in
+			case "z":
+				a := w.Z
+				to = &a
+				toID = 17
+				hasCode = true
+				if tx.ZRev {
+					expect = "fail"
+				}
+				zaddr := func(n string) gethcommon.Address {
+					switch n {
+					case "R":
+						return R
+					case "S":
+						return from.EthAddr
+					case "X":
+						return w.X
+					case "DIST":
+						return dist
+					case "FC":
+						return fc
+					}
+					return B
+				}
+				// every CALL gets its own gas budget (a failing precompile call burns all the gas it was given): 60k for a
+				// transfer, 300k for a precompile call, the sum of its steps plus a margin for a frame
+				var enc func(steps []c05ZStep, rev bool) ([]byte, uint64)
+				enc = func(steps []c05ZStep, rev bool) ([]byte, uint64) {
+					var out []byte
+					total := uint64(30_000)
+					word := func(v *big.Int) { out = append(out, gethcommon.LeftPadBytes(v.Bytes(), 32)...) }
+					for _, st := range steps {
+						var addr gethcommon.Address
+						val := new(big.Int)
+						var payload []byte
+						g := uint64(60_000)
+						switch st.Op {
+						case "t":
+							addr, val = zaddr(st.To), bigOf(st.W)
+						case "p":
+							addr = precompile.PrecompileAddr_FunToken
+							g = 300_000
+							var err error
+							if st.Q {
+								payload, err = embeds.SmartContract_FunToken.ABI.Pack("whoAmI", from.NibiruAddr.String())
+							} else {
+								payload, err = embeds.SmartContract_FunToken.ABI.Pack("bankMsgSend", eth.EthAddrToNibiruAddr(zaddr(st.To)).String(), "unibi", bigOf(st.W))
+							}
+							if err != nil {
+								t.Fatal(err)
+							}
+						default:
+							addr = w.Z
+							payload, g = enc(st.Body, st.Rev)
+						}
+						plen := (len(payload) + 31) / 32 * 32
+						word(big.NewInt(1))
+						word(new(big.Int).SetBytes(addr.Bytes()))
+						word(val)
+						word(new(big.Int).SetUint64(g))
+						word(big.NewInt(int64(len(payload))))
+						word(big.NewInt(int64(plen)))
+						out = append(out, payload...)
+						out = append(out, make([]byte, plen-len(payload))...)
+						total += g + g/32 + 20_000 + 10*uint64(plen)
+					}
+					if rev {
+						word(big.NewInt(3))
+					} else {
+						word(big.NewInt(0))
+					}
+					return out, total
+				}
+				data, zgas = enc(tx.ZSteps, tx.ZRev)
 			case "create":
 				toID = 5
 				hasCode = true
@@ -467,6 +566,9 @@ func (w *c05World) runCase(t *testing.T, cs c05Case) ([]c05Der, []c05Obs) {
 				if tx.Target == "w" {
 					gas = intrinsic + 2_000_000
 				}
+				if tx.Target == "z" {
+					gas = intrinsic + zgas + zgas/16 + 100_000
+				}
 			case "large":
 				gas = blockGas
 			case "over":
@@ -503,7 +605,13 @@ func (w *c05World) runCase(t *testing.T, cs c05Case) ([]c05Der, []c05Obs) {
 			if err := msg.FromEthereumTx(stx); err != nil {
 				t.Fatal(err)
 			}
-			return msg, c05Der{Gas: gas, Intrinsic: intrinsic, Value: value.String(), To: toID, Expect: expect,
+			blocked := []int{}
+			for i, a := range append(append([]gethcommon.Address{}, accts...), gethcommon.Address{}, gethcommon.BytesToAddress(w.W.Bytes()), evmMod, w.Z, dist) {
+				if i != 14 && c.App.BankKeeper.BlockedAddr(eth.EthAddrToNibiruAddr(a)) {
+					blocked = append(blocked, i)
+				}
+			}
+			return msg, c05Der{Gas: gas, Intrinsic: intrinsic, Value: value.String(), To: toID, Expect: expect, Blocked: blocked,
 				BaseFee: evm.NativeToWei(c.App.EvmKeeper.BaseFeeMicronibiPerGas(ctx)).String(), BlockGas: blockGas}
 		}
 		var msgs []*evm.MsgEthereumTx
@@ -534,6 +642,7 @@ func (w *c05World) runCase(t *testing.T, cs c05Case) ([]c05Der, []c05Obs) {
 				out = append(out, w.bal(a).String())
 			}
 			out = append(out, w.balNibi(w.W).String(), w.bal(gethcommon.BytesToAddress(w.W.Bytes())).String())
+			out = append(out, w.bal(evmMod).String(), w.bal(w.Z).String(), w.bal(dist).String())
 			return out, c.App.BankKeeper.GetSupply(c.Ctx(), "unibi").Amount.String()
 		}
 		o.Before, o.SupplyB = snap()
@@ -605,8 +714,10 @@ func genC05Tx(r *Rng) c05Tx {
 	case 4: // huge
 		tx.Cap = "1000000000000000000"
 	}
-	tx.Target = []string{"eoa", "x", "create", "y", "d", "f", "w"}[r.Pick(5, 8, 2, 1, 4, 4, 3)]
+	tx.Target = []string{"eoa", "x", "create", "y", "d", "f", "w", "z"}[r.Pick(5, 8, 2, 1, 4, 4, 3, 6)]
 	switch tx.Target {
+	case "z":
+		tx.ZSteps, tx.ZRev = genC05Z(r.Fork())
 	case "w":
 		tx.WAmt = pickStr(r, "0", "1", "7", "7", "50", "123456")
 		tx.WBad = r.Chance(1, 5)
@@ -642,7 +753,7 @@ func genC05Tx(r *Rng) c05Tx {
 	case "create":
 		tx.Mode = r.Pick(3, 1)
 	}
-	if tx.Target == "d" || tx.Target == "f" || tx.Target == "w" {
+	if tx.Target == "d" || tx.Target == "f" || tx.Target == "w" || tx.Target == "z" {
 		tx.GasMode = []string{"below", "exact", "ample"}[r.Pick(1, 1, 14)]
 	} else if tx.Target == "eoa" {
 		tx.GasMode = []string{"below", "exact", "plus", "ample", "large", "over"}[r.Pick(2, 4, 3, 3, 1, 1)]
@@ -661,10 +772,79 @@ func genC05Tx(r *Rng) c05Tx {
 	if tx.Target == "y" || tx.Target == "w" {
 		tx.Value = "0"
 	}
-	if (tx.Target == "d" || tx.Target == "f") && (strings.HasPrefix(tx.Value, "bal-") || len(tx.Value) > 15) {
+	if (tx.Target == "d" || tx.Target == "f" || tx.Target == "z") && (strings.HasPrefix(tx.Value, "bal-") || len(tx.Value) > 15) {
 		tx.Value = "1000000000000"
 	}
 	return tx
+}
+
+// genC05Z: a script for contract Z.  Half of the scripts contain the shape "value transfer to a module account the
+// bank blocks, then a precompile call in the same live frame" (the pre-precompile flush fails half-way), inside a frame
+// that reverts, inside the top-level frame of a tx that reverts, or in frames that are kept (the final commit fails);
+// the rest are free mixtures of transfers, precompile queries / bank sends and nested frames.
+func genC05Z(r *Rng) ([]c05ZStep, bool) {
+	amtWei := func() string {
+		return pickStr(r, "1000000000000", "3000000000000", "999999999999", "2000000000005", "1000000000000000000", "7000000000000", "5000000000000000000000")
+	}
+	pre := func() c05ZStep {
+		if r.Chance(2, 5) {
+			return c05ZStep{Op: "p", Q: true, W: "0"}
+		}
+		return c05ZStep{Op: "p", To: pickStr(r, "B", "B", "R", "S", "DIST", "FC"), W: pickStr(r, "1", "7", "60", "0", "3", "99999999999")}
+	}
+	var gen func(depth int) []c05ZStep
+	gen = func(depth int) []c05ZStep {
+		var out []c05ZStep
+		n := r.Range(1, 4)
+		for i := 0; i < n; i++ {
+			switch k := r.Pick(4, 4, 3); {
+			case k == 0:
+				out = append(out, c05ZStep{Op: "t", To: pickStr(r, "DIST", "DIST", "FC", "B", "R", "S"), W: amtWei()})
+			case k == 1:
+				out = append(out, pre())
+			case depth < 2:
+				out = append(out, c05ZStep{Op: "f", Body: gen(depth + 1), Rev: r.Chance(1, 2)})
+			default:
+				out = append(out, c05ZStep{Op: "t", To: pickStr(r, "B", "R", "DIST"), W: amtWei()})
+			}
+		}
+		return out
+	}
+	failing := func() []c05ZStep { // credit a blocked account, then call a precompile while the credit is pending
+		st := []c05ZStep{}
+		if r.Chance(1, 3) {
+			st = append(st, c05ZStep{Op: "t", To: pickStr(r, "B", "R"), W: amtWei()})
+		}
+		st = append(st, c05ZStep{Op: "t", To: pickStr(r, "DIST", "DIST", "FC"), W: pickStr(r, "1000000000000", "1000000000000000000", "3000000000000", "2000000000005")})
+		if r.Chance(1, 3) {
+			st = append(st, c05ZStep{Op: "t", To: pickStr(r, "B", "S"), W: amtWei()})
+		}
+		st = append(st, pre())
+		if r.Chance(1, 3) {
+			st = append(st, pre())
+		}
+		return st
+	}
+	switch r.Pick(3, 2, 1, 4) {
+	case 0: // inside a frame that reverts, in a tx that goes on
+		steps := []c05ZStep{}
+		if r.Chance(1, 2) {
+			steps = append(steps, gen(1)...)
+		}
+		steps = append(steps, c05ZStep{Op: "f", Body: failing(), Rev: true})
+		if r.Chance(1, 2) {
+			steps = append(steps, gen(1)...)
+		}
+		return steps, r.Chance(1, 5)
+	case 1: // the whole tx reverts
+		return failing(), true
+	case 2: // kept: the final commit owes the blocked account its credit
+		if r.Chance(1, 2) {
+			return []c05ZStep{{Op: "f", Body: failing(), Rev: false}}, false
+		}
+		return failing(), false
+	}
+	return gen(0), r.Chance(1, 4)
 }
 
 // genC05Bundle: one Cosmos tx carrying 2-3 messages, mostly of different signers
@@ -677,6 +857,7 @@ func genC05Bundle(r *Rng) c05Tx {
 		m.FV, m.FE, m.FInit, m.FC2 = "", "", "", false
 		m.WAmt, m.WBad = "", false
 		m.PTo, m.PAmt = "", ""
+		m.ZSteps, m.ZRev = nil, false
 		m.Signer = r.Intn(3)
 		if i > 0 && r.Chance(1, 4) {
 			m.Signer = subs[0].Signer
@@ -786,6 +967,24 @@ func TestC05(t *testing.T) {
 		return c05Tx{Ty: 0, GasMode: "ample", Gp: base, Tip: "0", Cap: "0", Value: "0", Target: "w", W: "0", WAmt: amt, WBad: bad}
 	}
 	run(c05Case{Fund: "1000000000000", RBal: "0", Txs: []c05Tx{wtx("7", false), wtx("7", false), wtx("0", false), wtx("5", true)}})
+	// … a flush that fails half-way: contract Z pays 1 NIBI to the x/distribution module account (blocked by the bank) and
+	// then calls the FunToken precompile, inside a sub-call that reverts / in a tx that reverts as a whole / in frames
+	// that are kept (the final commit then fails); the same with the fee collector; a query instead of a bank send
+	ztx := func(rev bool, steps ...c05ZStep) c05Tx {
+		return c05Tx{Ty: 0, GasMode: "ample", Gp: base, Tip: "0", Cap: "0", Value: "0", Target: "z", W: "0", ZSteps: steps, ZRev: rev}
+	}
+	zt := func(to, w string) c05ZStep { return c05ZStep{Op: "t", To: to, W: w} }
+	zsend := func(to, amt string) c05ZStep { return c05ZStep{Op: "p", To: to, W: amt} }
+	zq := c05ZStep{Op: "p", Q: true, W: "0"}
+	zf := func(rev bool, body ...c05ZStep) c05ZStep { return c05ZStep{Op: "f", Body: body, Rev: rev} }
+	run(c05Case{Fund: "1000000000000", RBal: "0", Txs: []c05Tx{
+		ztx(false, zf(true, zt("DIST", "1000000000000000000"), zsend("B", "1"))),
+		ztx(true, zt("DIST", "1000000000000000000"), zsend("B", "1")),
+		ztx(false, zt("B", "3000000000000"), zf(true, zt("FC", "2000000000000"), zq), zsend("R", "7")),
+		ztx(false, zf(false, zt("DIST", "1000000000000"), zq))}})
+	run(c05Case{Fund: "1000000000000", RBal: "0", Txs: []c05Tx{
+		ztx(false, zf(true, zt("B", "2000000000005"), zt("DIST", "3000000000000"), zq, zsend("S", "3")), zf(true, zsend("B", "5"), zt("DIST", "999999999999"), zq)),
+		ztx(false, zsend("B", "7"), zf(false, zf(true, zt("DIST", "1000000000000000000"), zsend("DIST", "1")), zt("R", "999999999999")), zq)}})
 	// … one Cosmos tx bundling messages of different signers (each pays for its own gas) and of one signer
 	sub := func(signer int, gm string, gasadd int, gp, value, target string, mode int, w string) c05Tx {
 		return c05Tx{Signer: signer, Ty: 0, GasMode: gm, GasAdd: gasadd, Gp: gp, Tip: "0", Cap: "0", Value: value, Target: target, Mode: mode, W: w}
